@@ -426,7 +426,16 @@ def render_script(project, steps, default):
                              (var, st['src'], deps))
         elif st['kind'] == 'alias':
             lines.append('%s = alias(%r, %s)' % (var, st['name'], deps))
-    if default in ids:
+    # `default` is None, one id, or ['calls'|'args', id, id...]: several default outputs, named
+    # in one default() call or in one call each
+    if isinstance(default, list):
+        form, dids = default[0], [d for d in default[1:] if d in ids]
+        if form == 'args' and dids:
+            lines.append('default(%s)' % ', '.join(ref[d] for d in dids))
+        else:
+            for d in dids:
+                lines.append('default(%s)' % ref[d])
+    elif default in ids:
         lines.append('default(%s)' % ref[default])
     return '\n'.join(lines) + '\n'
 
@@ -534,7 +543,9 @@ class Hist:
             st['deps'] = [d for d in st['deps'] if d in seen]
             st['use'] = [d for d in st.get('use', []) if d in seen]
             seen.add(st['id'])
-        if self.default not in seen:
+        if isinstance(self.default, list):
+            self.default = self.default[:1] + [d for d in self.default[1:] if d in seen]
+        elif self.default not in seen:
             self.default = None
 
     def mutate(self):
@@ -597,7 +608,13 @@ class Hist:
         elif op == 'reorder':
             rng.shuffle(self.steps)
         elif op == 'default':
-            self.default = rng.choice(self.steps)['id'] if rng.random() < 0.8 else None
+            r = rng.random()
+            if r < 0.45 and len(self.steps) >= 2:
+                k = rng.randint(2, min(3, len(self.steps)))
+                self.default = [rng.choice(['calls', 'args'])] + \
+                    [s['id'] for s in rng.sample(self.steps, k)]
+            else:
+                self.default = rng.choice(self.steps)['id'] if r < 0.9 else None
         self.fix_order()
         # an alias whose users vanished is fine; a step that lost a `use` too
         return op
@@ -620,6 +637,12 @@ def gen_history(rng, tier, idx, flavour):
         for _ in range(rng.randint(1, 2)):
             h.add_near()
     h.fix_order()
+    # two of three histories start with several default outputs (the MSBuild back end moves
+    # default projects to the front of the solution one by one)
+    if idx % 3 != 2 and len(h.steps) >= 2:
+        k = rng.randint(2, min(3, len(h.steps)))
+        h.default = [['args', 'calls'][idx % 3]] + [s['id'] for s in rng.sample(h.steps, k)]
+        h.fix_order()
     nruns = rng.randint(5, 6) if tier == 'quick' else rng.randint(6, 9)
     runs = []
     special_at = rng.randint(1, nruns - 1)
